@@ -1,5 +1,182 @@
 import ZoektModel.Basic.Proto
+import ZoektModel.C14.Spec
+import ZoektModel.C13.Driver
 namespace ZoektModel.C14
-/-- stub: no model driver for C14 yet -/
-def main : IO Unit := ZoektModel.Proto.runLines (fun _ => ZoektModel.Proto.badCase "no model driver for C14")
+open ZoektModel ZoektModel.Proto ZoektModel.C13
+
+def hexList? (s : String) : Option (List Bytes) :=
+  if s == "-" then some [] else (s.splitOn ",").mapM hexToBytes?
+
+def parseEntries (s : String) : Option (List TEntry) :=
+  if s == "-" then some [] else
+  (s.splitOn ",").mapM fun e =>
+    match e.splitOn ":" with
+    | [p, h, m] => do pure ⟨← p.toNat?, ← h.toNat?, ← m.toNat?⟩
+    | _ => none
+
+/-- `b|ignoreFileHex|entries` joined by `;` -/
+def parseBranches (paths : List Bytes) (s : String) : Option (List BranchTree) :=
+  (s.splitOn ";").mapM fun br =>
+    match br.splitOn "|" with
+    | [b, ig, es] => do
+      let b ← b.toNat?
+      let file ← hexToBytes? ig
+      let es ← parseEntries es
+      let pats := parseIgnore file
+      pure ⟨b, fun p => ignoreMatch pats (paths.getD p []), es⟩
+    | _ => none
+
+def showDocs (m : Files) : String :=
+  let ds := C13.sortBy (fun a b => C13.pairLt (a.path, a.blob) (b.path, b.blob)) m
+  showList (fun d => s!"{d.path}:{d.blob}:{"+".intercalate (d.branches.map toString)}") ds
+
+def parseDocs (s : String) : Option Files :=
+  if s == "-" then some [] else
+  (s.splitOn ",").mapM fun e =>
+    match e.splitOn ":" with
+    | [p, x, bs] => do
+      let bs ← (bs.splitOn "+").mapM (·.toNat?)
+      pure ⟨← p.toNat?, ← x.toNat?, bs⟩
+    | _ => none
+
+def showNext : NextRes → String
+  | .eof => "eof" | .err _ => "err" | .missing => "missing" | .excluded => "excluded"
+  | .blob n => s!"blob{n}"
+
+def showStatus : RStatus → String
+  | .ok => "ok" | .eof => "eof" | .err => "err"
+
+/-- run the cat-file ops against the model -/
+def runCF : CF → List String → List String → Option (List String)
+  | _, [], acc => some acc.reverse
+  | s, op :: ops, acc =>
+    if op == "n" then
+      let (r, s') := next s
+      runCF s' ops (s!"{showNext r}/{s'.pending}" :: acc)
+    else if op.startsWith "r" then
+      match ((op.drop 1).toString.splitOn ":").map (·.toNat?) with
+      | [some plen, some k] =>
+        let (data, st, s') := read s plen k
+        runCF s' ops (s!"{bytesToHex data}:{showStatus st}/{s'.pending}" :: acc)
+      | _ => none
+    else if op.startsWith "f" then
+      match (op.drop 1).toString.toNat? with
+      | some n =>
+        let (data, ok, s') := readFull n s n [] []
+        runCF s' ops (s!"{bytesToHex data}:{showBool ok}/{s'.pending}" :: acc)
+      | none => none
+    else none
+
+def showRegion (r : Region) : String :=
+  match r.buf with
+  | .own i => s!"o{i}+{r.len}/{r.cap}"
+  | .slab g => s!"s{g}@{r.off}+{r.len}/{r.cap}"
+
+def parseRegion (s : String) : Option Region :=
+  if s.startsWith "o" then
+    match (s.drop 1).toString.splitOn "+" with
+    | [i, lc] =>
+      match lc.splitOn "/" with
+      | [l, c] => do pure ⟨.own (← i.toNat?), 0, ← l.toNat?, ← c.toNat?⟩
+      | _ => none
+    | _ => none
+  else if s.startsWith "s" then
+    match (s.drop 1).toString.splitOn "@" with
+    | [g, rest] =>
+      match rest.splitOn "+" with
+      | [o, lc] =>
+        match lc.splitOn "/" with
+        | [l, c] => do pure ⟨.slab (← g.toNat?), ← o.toNat?, ← l.toNat?, ← c.toNat?⟩
+        | _ => none
+      | _ => none
+    | _ => none
+  else none
+
+def showSkip : Skip → String
+  | .none => "ok" | .tooLarge => "large" | .tooSmall => "small" | .binary => "binary" | .missing => "missing"
+
+def parseSkip : String → Option Skip
+  | "ok" => some .none | "large" => some .tooLarge | "small" => some .tooSmall | "binary" => some .binary
+  | "missing" => some .missing | _ => none
+
+def showDoc (d : DocOut) : String := s!"{showSkip d.skip}:{bytesToHex d.content}"
+
+def parseDoc (s : String) : Option DocOut :=
+  match s.splitOn ":" with
+  | [k, c] => do pure ⟨← hexToBytes? c, ← parseSkip k⟩
+  | _ => none
+
+def parseBools (s : String) : Option (List Bool) :=
+  if s == "-" then some [] else (s.toList.mapM fun c => if c == '1' then some true else if c == '0' then some false else none)
+
+/--
+ops:
+  collect <pathsHexCSV> <branches>                impl/model: documents `p:x:b+b…`; verdict: checkDocs(impl)
+  ignore <fileHex> <pathHex>                      impl/model: 0|1
+  cf <streamHex> <op,op,…>                        impl/model: result of every op with the pending counter
+  slab <cap> <sizes>                              impl/model: regions; verdict: checkRegions(impl)
+  docs <sizeMax> <streamHex> <allowFlags>         impl/model: `error` or the documents after Builder.Add
+  doc2 <sizeMax> <allow 0|1> <filter 0|1> <present 0|1> <contentHex>
+                                                  impl/model: `g=<doc> c=<doc>` (go-git path, cat-file path);
+                                                  verdict: checkContent of both implementation documents, and equality
+-/
+def handle (line : String) : String :=
+  let (inp, impl) := splitCase line
+  match fields inp with
+  | ["collect", ps, brs] =>
+    match hexList? ps with
+    | none => badCase "paths"
+    | some paths =>
+      match parseBranches paths brs, parseDocs impl with
+      | some ts, some idocs =>
+        let model := showDocs (collectAll ts)
+        if checkDocs ts idocs then answer model else specFail model "collect-not-exact"
+      | _, _ => badCase "collect fields"
+  | ["ignore", f, p] =>
+    match hexToBytes? f, hexToBytes? p with
+    | some f, some p => answer (showBool (ignoreMatch (parseIgnore f) p))
+    | _, _ => badCase "ignore fields"
+  | ["cf", st, ops] =>
+    match hexToBytes? st with
+    | some stream =>
+      match runCF ⟨stream, 0⟩ (ops.splitOn ",") [] with
+      | some outs => answer (",".intercalate outs)
+      | none => badCase "cf ops"
+    | none => badCase "cf stream"
+  | ["slab", cap, sizes] =>
+    match cap.toNat?, natList? sizes with
+    | some cap, some sizes =>
+      let model := showList showRegion (({ cap := cap } : Slab).allocs sizes)
+      match (if impl == "-" then some [] else (impl.splitOn ",").mapM parseRegion) with
+      | some irs => if checkRegions irs then answer model else specFail model "slab-overlap"
+      | none => badCase "slab impl"
+    | _, _ => badCase "slab fields"
+  | ["docs", sm, st, allow] =>
+    match sm.toNat?, hexToBytes? st, parseBools allow with
+    | some sizeMax, some stream, some allows =>
+      let (ds, ok) := catfileDocs sizeMax ⟨stream, 0⟩ allows []
+      if !ok then answer "error"
+      else answer (showList showDoc ((ds.zip allows).map fun p => builderAdd sizeMax p.2 p.1))
+    | _, _, _ => badCase "docs fields"
+  | ["doc2", sm, allow, filter, present, c] =>
+    match sm.toNat?, bool? allow, bool? filter, bool? present, hexToBytes? c with
+    | some sizeMax, some allow, some filter, some present, some content =>
+      let st : BlobSt := if present then .present content else .missing
+      let g := builderAdd sizeMax allow (gogitDoc sizeMax allow st)
+      let c := builderAdd sizeMax allow (catfileDoc sizeMax allow (catfileAnswer filter sizeMax st) content)
+      let model := s!"g={showDoc g} c={showDoc c}"
+      match fields impl with
+      | [ig, ic] =>
+        match parseDoc (ig.drop 2).toString, parseDoc (ic.drop 2).toString with
+        | some ig, some ic =>
+          if !(checkContent sizeMax allow st ig) then specFail model "gogit-content"
+          else if !(checkContent sizeMax allow st ic) then specFail model "catfile-content"
+          else if ig != ic then specFail model (if present then "paths-differ" else "paths-differ-missing-blob")
+          else answer model
+        | _, _ => badCase "doc2 impl"
+      | _ => badCase "doc2 impl fields"
+    | _, _, _, _, _ => badCase "doc2 fields"
+  | _ => badCase "op"
+
+def main : IO Unit := runLines handle
 end ZoektModel.C14
